@@ -7,11 +7,33 @@
      * u: a unit fragment leaves exactly 1 on satisfaction — inside [good] ([goodval]);
      * z / o / n: a fragment typed z consumes no element, typed o exactly one, typed n has a
        non-empty top element when satisfied — [shape].
-   NOT yet proved (kept visible): the "for every input stack" direction (Theorem B: an
-   execution that succeeds used a table entry), d (existence of a signature-free
-   dissatisfaction), f / e / s (statements about all stacks). The per-run check enumerates
-   input stacks for those. *)
+   Proved for EVERY input stack and alt stack (Proofs/Frame*.v; induction over the typing rules of
+   Ms/Types.v, all constructors incl. raw_pk_h, thresh, multi, multi_a; [wf] = constructor
+   invariants), about every SUCCESSFUL execution of the encoded fragment:
+     * (Fr) frame: the alt stack is restored, the input stack splits into a consumed prefix and an
+       untouched rest, the script maps that prefix to the same output in every other frame, and the
+       output has the shape of the base type (B one element, V none, K the key, W the value next to
+       the carried top element, for every carried element) — [C06_frame], [C06_frame_W];
+     * (Z/O) the consumed prefix is empty when typed z, one element when typed o (for K the one
+       argument is the signature left under the key) — [C06_input_class], [C06_z], [C06_o], [C06_o_K];
+     * (N) typed n: a satisfying execution has a non-empty top input element (at least one element is
+       consumed: [C06_input_class]) — [C06_n]; hypothesis [nhyp]: the empty signature never verifies
+       and the empty string is not an acceptable public key (used by multi and pk_h only);
+     * (U) typed u: a true value left is exactly 01 — [C06_u], [C06_u_W];
+     * (D) typed d (and no raw_pk_h): a dissatisfaction built from empty vectors, 01, 32 zero bytes
+       and the fragment's public keys is listed by the table under the EMPTY asset set and leaves
+       exactly 0 — [C06_d]; raw_pk_h is excluded because its key is a hash preimage that need not
+       exist ([C06_d_raw_pkh_remark]).
+     * the per-base-type invariant all of the above are projections of — [C06_frame_invariant].
+   The model's [type_of] has no context argument (cast_dupif never claims u), so no prediction
+   above needs MINIMALIF; (Fr), (Z/O), (U) need no hypothesis on the environment at all (they hold
+   under every signature version). "Non-empty" (not "script-true") is what n promises: a 32-byte
+   negative-zero preimage is a satisfying non-true top element ([C06_n_nonempty_not_true_remark]).
+   NOT yet proved (kept visible): Theorem B's table direction (a successful execution used a
+   table entry), f / e / s (statements about all stacks; s and f are being proved in
+   Proofs/Signed*.v). The per-run check enumerates input stacks for those. *)
 From Verif Require Import Exec Ser Ast Types TypeCheck SatSpec ExecLemmas TheoremA.
+From Verif Require Import FrameBase FrameSound FrameDissat.
 
 Theorem C06_table_level_partial :
   forall (e : env) (ke : keyenv) (A : assets), assets_ok e ke A -> (forall kbs, e_sigok e kbs [] = false) ->
@@ -19,3 +41,155 @@ Theorem C06_table_level_partial :
     good e ke A m t /\ shape ke A m t.
 Proof. exact theoremA_closed. Qed.
 Print Assumptions C06_table_level_partial.
+
+(* ---- every input stack: frame ---- *)
+Theorem C06_frame :
+  forall (e : env) (ke : keyenv) (m : ms) (t : ty), type_of m = ROk t -> wf e ke m ->
+  forall st al r, exec e (enc ke m) (mkSt st al) = Ok r ->
+  exists consumed rest out,
+    st = consumed ++ rest /\ r = mkSt (out ++ rest) al /\
+    (forall rest' al', exec e (enc ke m) (mkSt (consumed ++ rest') al') = Ok (mkSt (out ++ rest') al')) /\
+    out_shape (c_base (t_corr t)) consumed out.
+Proof. exact frame_sound. Qed.
+Print Assumptions C06_frame.
+
+Theorem C06_frame_W :
+  forall (e : env) (ke : keyenv) (m : ms) (t : ty), type_of m = ROk t -> wf e ke m -> c_base (t_corr t) = BW ->
+  forall st al r, exec e (enc ke m) (mkSt st al) = Ok r ->
+  exists c0 w rest v (above : bool),
+    st = c0 :: w ++ rest /\
+    r = mkSt ((if above then [v; c0] else [c0; v]) ++ rest) al /\
+    forall c0' rest' al', exec e (enc ke m) (mkSt (c0' :: w ++ rest') al')
+                          = Ok (mkSt ((if above then [v; c0'] else [c0'; v]) ++ rest') al').
+Proof. exact frame_sound_W. Qed.
+Print Assumptions C06_frame_W.
+
+(* ---- every input stack: z / o (and "n consumes at least one") ---- *)
+Theorem C06_input_class :
+  forall (e : env) (ke : keyenv) (m : ms) (t : ty), type_of m = ROk t -> wf e ke m ->
+  forall st al r, exec e (enc ke m) (mkSt st al) = Ok r ->
+  exists consumed rest out,
+    st = consumed ++ rest /\ r = mkSt (out ++ rest) al /\
+    (forall rest' al', exec e (enc ke m) (mkSt (consumed ++ rest') al') = Ok (mkSt (out ++ rest') al')) /\
+    match c_base (t_corr t) with
+    | BW => c_input (t_corr t) = IAny
+    | b => cnt (c_input (t_corr t)) (nargs b consumed)
+    end.
+Proof. exact input_class_sound. Qed.
+Print Assumptions C06_input_class.
+
+Theorem C06_z :
+  forall (e : env) (ke : keyenv) (m : ms) (t : ty), type_of m = ROk t -> wf e ke m -> c_input (t_corr t) = IZero ->
+  forall st al r, exec e (enc ke m) (mkSt st al) = Ok r ->
+  exists out, r = mkSt (out ++ st) al /\
+    (forall st' al', exec e (enc ke m) (mkSt st' al') = Ok (mkSt (out ++ st') al')) /\
+    out_shape (c_base (t_corr t)) [] out.
+Proof. exact z_sound. Qed.
+Print Assumptions C06_z.
+
+Theorem C06_o :
+  forall (e : env) (ke : keyenv) (m : ms) (t : ty), type_of m = ROk t -> wf e ke m ->
+  c_input (t_corr t) = IOne \/ c_input (t_corr t) = IOneNonZero ->
+  c_base (t_corr t) = BB \/ c_base (t_corr t) = BV ->
+  forall st al r, exec e (enc ke m) (mkSt st al) = Ok r ->
+  exists x rest out, st = x :: rest /\ r = mkSt (out ++ rest) al /\
+    (forall rest' al', exec e (enc ke m) (mkSt (x :: rest') al') = Ok (mkSt (out ++ rest') al')) /\
+    out_shape (c_base (t_corr t)) [x] out.
+Proof. exact o_sound. Qed.
+Print Assumptions C06_o.
+
+Theorem C06_o_K :
+  forall (e : env) (ke : keyenv) (m : ms) (t : ty), type_of m = ROk t -> wf e ke m ->
+  c_input (t_corr t) = IOne \/ c_input (t_corr t) = IOneNonZero -> c_base (t_corr t) = BK ->
+  forall st al r, exec e (enc ke m) (mkSt st al) = Ok r ->
+  exists k, r = mkSt (k :: st) al /\
+    forall st' al', exec e (enc ke m) (mkSt st' al') = Ok (mkSt (k :: st') al').
+Proof. exact o_sound_K. Qed.
+Print Assumptions C06_o_K.
+
+(* ---- every input stack: n ---- *)
+Theorem C06_n :
+  forall (e : env) (ke : keyenv) (m : ms) (t : ty),
+  nhyp e -> type_of m = ROk t -> wf e ke m -> isn (c_input (t_corr t)) = true ->
+  forall st al r, exec e (enc ke m) (mkSt st al) = Ok r ->
+  match c_base (t_corr t) with
+  | BB => forall v rest', stk r = v :: rest' -> truthy v = true -> top_ne st
+  | BV => top_ne st
+  | BK => forall k rest', stk r = k :: rest' -> ksat e k rest' -> top_ne st
+  | BW => True
+  end.
+Proof. exact n_sound. Qed.
+Print Assumptions C06_n.
+
+(* n is "not the empty vector", not "script-true": a negative-zero preimage satisfies a hash fragment *)
+Theorem C06_n_nonempty_not_true_remark :
+  exists (e : env) (ke : keyenv) (m : ms) (t : ty) (x : bytes),
+    nhyp e /\ type_of m = ROk t /\ wf e ke m /\ isn (c_input (t_corr t)) = true /\ c_base (t_corr t) = BB /\
+    exec e (enc ke m) (mkSt [x] []) = Ok (mkSt [[1%N]] []) /\ x <> [] /\ truthy x = false.
+Proof. exact n_is_nonempty_not_script_true. Qed.
+Print Assumptions C06_n_nonempty_not_true_remark.
+
+(* ---- every input stack: u ---- *)
+Theorem C06_u :
+  forall (e : env) (ke : keyenv) (m : ms) (t : ty),
+  type_of m = ROk t -> wf e ke m -> c_unit (t_corr t) = true -> c_base (t_corr t) = BB ->
+  forall st al r, exec e (enc ke m) (mkSt st al) = Ok r ->
+  exists v rest, stk r = v :: rest /\ (truthy v = true -> v = [1%N]).
+Proof. exact u_sound. Qed.
+Print Assumptions C06_u.
+
+Theorem C06_u_W :
+  forall (e : env) (ke : keyenv) (m : ms) (t : ty),
+  type_of m = ROk t -> wf e ke m -> c_unit (t_corr t) = true -> c_base (t_corr t) = BW ->
+  forall c0 st al r, exec e (enc ke m) (mkSt (c0 :: st) al) = Ok r ->
+  exists v rest, (stk r = v :: c0 :: rest \/ stk r = c0 :: v :: rest) /\ (truthy v = true -> v = [1%N]).
+Proof. exact u_sound_W. Qed.
+Print Assumptions C06_u_W.
+
+(* ---- d: a signature-free input on which the fragment leaves exactly 0 ---- *)
+Theorem C06_d :
+  forall (e : env) (ke : keyenv), keys_ok e ke -> (forall kbs, e_sigok e kbs [] = false) ->
+  forall (m : ms) (t : ty), type_of m = ROk t -> wf e ke m -> no_multi m -> c_dissat (t_corr t) = true ->
+  exists w, In w (all_dsat ke A0 m) /\ Forall (sf_elt ke) w /\
+    match c_base (t_corr t) with
+    | BB => forall rest al, exec e (enc ke m) (mkSt (w ++ rest) al) = Ok (mkSt ([] :: rest) al)
+    | BK => forall rest al, exists kbs,
+              exec e (enc ke m) (mkSt (w ++ rest) al) = Ok (mkSt (kbs :: [] :: rest) al) /\ e_keyok e kbs = true
+    | BW => forall c rest al,
+              exec e (enc ke m) (mkSt (c :: w ++ rest) al) = Ok (mkSt ([] :: c :: rest) al) \/
+              exec e (enc ke m) (mkSt (c :: w ++ rest) al) = Ok (mkSt (c :: [] :: rest) al)
+    | BV => False
+    end.
+Proof. exact d_sound. Qed.
+Print Assumptions C06_d.
+
+Theorem C06_d_raw_pkh_remark :
+  exists (e : env) (ke : keyenv) (m : ms) (t : ty),
+    type_of m = ROk t /\ wf e ke m /\ c_base (t_corr t) = BB /\ c_dissat (t_corr t) = true /\
+    forall st al, exec e (enc ke m) (mkSt st al) = Fail.
+Proof. exact d_raw_pkh_needs_preimage. Qed.
+Print Assumptions C06_d_raw_pkh_remark.
+
+(* ---- the invariant behind the all-stacks statements ---- *)
+Theorem C06_frame_invariant :
+  forall (e : env) (ke : keyenv) (m : ms) (t : ty), type_of m = ROk t -> wf e ke m -> inv e (enc ke m) t.
+Proof. exact frame_inv. Qed.
+Print Assumptions C06_frame_invariant.
+
+(* ---- non-vacuity: the hypotheses are satisfiable and successful executions exist ---- *)
+Example C06_frame_nonvacuous :
+  nhyp ex_env /\
+  (exists t, type_of ex_ms = ROk t /\ c_base (t_corr t) = BB /\ c_unit (t_corr t) = false) /\
+  wf ex_env ex_ke ex_ms /\
+  exec ex_env (enc ex_ke ex_ms) (mkSt [[2;0;1]; [9]]%N [[7%N]]) = Ok (mkSt [[1]; [9]]%N [[7%N]]) /\
+  exec ex_env (enc ex_ke ex_ms) (mkSt [[]; [2;1]; [2;1;1]; [9]]%N [[7%N]]) = Ok (mkSt [[10]; [9]]%N [[7%N]]) /\
+  (exists t, type_of ex_ms2 = ROk t /\ c_base (t_corr t) = BB /\ c_unit (t_corr t) = true) /\
+  wf ex_env ex_ke ex_ms2 /\
+  exec ex_env (enc ex_ke ex_ms2) (mkSt [[2;0;1]; []; [2;3;1]; []; [9]]%N []) = Ok (mkSt [[1]; [9]]%N []).
+Proof. exact (conj ex_nhyp (conj ex_typed (conj ex_wf (conj ex_run1 (conj ex_run2 (conj ex2_typed (conj ex2_wf ex2_run))))))). Qed.
+
+Example C06_d_nonvacuous :
+  keys_ok exd_env exd_ke /\ (forall kbs, e_sigok exd_env kbs [] = false) /\
+  (exists t, type_of exd_ms = ROk t /\ c_base (t_corr t) = BB /\ c_dissat (t_corr t) = true) /\
+  wf exd_env exd_ke exd_ms /\ no_multi exd_ms.
+Proof. exact (conj exd_keys (conj exd_sig (conj exd_typed exd_wf))). Qed.
